@@ -408,9 +408,9 @@ func hevcPicTiming(nDU int, common bool) []byte {
 	w.Put(1, 4) // pic_struct
 	w.Put(1, 2) // source_scan_type
 	w.Flag(false)
-	w.Put(3, 8)  // au_cpb_removal_delay_minus1 (length 8)
-	w.Put(2, 8)  // pic_dpb_output_delay
-	w.Put(1, 8)  // pic_dpb_output_du_delay
+	w.Put(3, 8) // au_cpb_removal_delay_minus1 (length 8)
+	w.Put(2, 8) // pic_dpb_output_delay
+	w.Put(1, 8) // pic_dpb_output_du_delay
 	w.UE(uint64(nDU))
 	w.Flag(common)
 	if common {
